@@ -95,8 +95,132 @@ func (h *c25Harness) newAction(wi int, typ WalletActionType, outcome error) *c25
 	return a
 }
 
+// ---------------------------------------------------------------------------
+// a dispatcher that stops answering
+//
+// Every interaction with the dispatcher goes through await/lockTable. When one
+// does not come back promptly the harness does not let a clock decide: it
+// looks at the goroutines. The dispatcher mutex is only ever held by a
+// goroutine that is inside dispatch() (or inside the deferred release of a
+// dispatched action). If the mutex is locked, and every goroutine that is
+// inside those functions is either parked on that very mutex or executing its
+// action (execute() runs without the lock), nobody is left who could ever
+// unlock it: all later dispatches - for any wallet - and all releases block
+// for good. That is a violation ("actions for different wallets do not block
+// each other", "available again as soon as its action ends"), not a timeout.
+
+const c25Patience = 200 * time.Millisecond
+
+// c25DispatchGoroutines classifies (waiters, executing, inTransit) the goroutines that
+// are inside walletDispatcher.dispatch frames.
+func c25DispatchGoroutines() (waiters, executing, inTransit int, dump string) {
+	buf := make([]byte, 4<<20)
+	buf = buf[:runtime.Stack(buf, true)]
+	dump = string(buf)
+	for _, g := range strings.Split(dump, "\n\n") {
+		if !strings.Contains(g, "(*walletDispatcher).dispatch") {
+			continue
+		}
+		header, _, _ := strings.Cut(g, "\n")
+		parked := !strings.Contains(header, "[running") && !strings.Contains(header, "[runnable")
+		switch {
+		case strings.Contains(g, "sync.(*Mutex).Lock") && parked:
+			waiters++
+		case strings.Contains(g, "(*c25Action).execute") && parked:
+			executing++
+		default:
+			inTransit++
+		}
+	}
+	return
+}
+
+// stuck decides whether the dispatcher mutex is locked with nobody left to
+// unlock it. Two identical observations in a row are required.
+func (h *c25Harness) stuck() (bool, string) {
+	var last string
+	for round := 0; round < 2; round++ {
+		if h.wd.actionsMutex.TryLock() {
+			h.wd.actionsMutex.Unlock()
+			return false, ""
+		}
+		w, e, transit, _ := c25DispatchGoroutines()
+		if transit != 0 {
+			return false, ""
+		}
+		now := fmt.Sprintf("%d goroutine(s) parked on the dispatcher mutex, %d executing their action, none inside a critical section", w, e)
+		if round == 1 && now != last {
+			return false, ""
+		}
+		last = now
+		runtime.Gosched()
+	}
+	return true, last
+}
+
+func (h *c25Harness) failStuck(what, why string) {
+	h.releaseAll()
+	h.t.Fatalf("%s does not return: the dispatcher mutex is locked and nobody is left to unlock it (%s) - every dispatch for any wallet and every release now blocks forever\nhistory: %s", what, why, h.history())
+}
+
+// await waits for done; when it takes long the goroutines decide.
+func (h *c25Harness) await(done <-chan struct{}, what string) {
+	select {
+	case <-done:
+		return
+	case <-time.After(c25Patience):
+	}
+	deadline := time.Now().Add(30 * time.Second)
+	for {
+		select {
+		case <-done:
+			return
+		case <-time.After(5 * time.Millisecond):
+		}
+		if is, why := h.stuck(); is {
+			h.failStuck(what, why)
+		}
+		if time.Now().After(deadline) {
+			h.releaseAll()
+			c25Inconclusive(h.t, what+" did not return within 30s")
+		}
+	}
+}
+
+// lockTable takes the dispatcher mutex for the harness' own reads.
+func (h *c25Harness) lockTable() {
+	start := time.Now()
+	for !h.wd.actionsMutex.TryLock() {
+		runtime.Gosched()
+		if time.Since(start) < c25Patience {
+			continue
+		}
+		if is, why := h.stuck(); is {
+			h.failStuck("reading the dispatcher table", why)
+		}
+		if time.Since(start) > 30*time.Second {
+			h.releaseAll()
+			c25Inconclusive(h.t, "dispatcher table not readable within 30s")
+		}
+		time.Sleep(time.Millisecond)
+	}
+}
+
+// guardedDispatch calls dispatch in its own goroutine so that a dispatch that
+// never returns cannot hang the harness.
+func (h *c25Harness) guardedDispatch(a walletAction, what string) error {
+	var err error
+	done := make(chan struct{})
+	go func() {
+		defer close(done)
+		err = h.wd.dispatch(a)
+	}()
+	h.await(done, what)
+	return err
+}
+
 func (h *c25Harness) snapshot() map[string]WalletActionType {
-	h.wd.actionsMutex.Lock()
+	h.lockTable()
 	defer h.wd.actionsMutex.Unlock()
 	out := map[string]WalletActionType{}
 	for k, v := range h.wd.actions {
@@ -157,7 +281,7 @@ func (h *c25Harness) releaseAll() {
 
 func (h *c25Harness) dispatch(wi int, typ WalletActionType, outcome error) {
 	a := h.newAction(wi, typ, outcome)
-	err := h.wd.dispatch(a)
+	err := h.guardedDispatch(a, fmt.Sprintf("dispatch #%d for wallet %d", a.id, wi))
 	busy := h.current[wi] != nil
 	h.log = append(h.log, fmt.Sprintf("D%d:%s%s", wi, typ, map[bool]string{true: "!", false: ""}[outcome != nil]))
 	switch {
@@ -201,6 +325,26 @@ func (h *c25Harness) complete(wi int) {
 	h.check("after completion")
 }
 
+// unmarshalable dispatches an action for a wallet whose public key cannot be
+// marshalled (a key on another curve): it must be refused with an error, must
+// never run, must leave the table alone - and must not disturb anybody else.
+func (h *c25Harness) unmarshalable(curve elliptic.Curve, scalar int64, typ WalletActionType) {
+	x, y := curve.ScalarBaseMult(big.NewInt(scalar).Bytes())
+	a := &c25Action{
+		id: len(h.all), wi: 0, typ: typ, probe: h.probe,
+		w:    wallet{publicKey: &ecdsa.PublicKey{Curve: curve, X: x, Y: y}},
+		gate: make(chan struct{}), started: make(chan struct{}),
+	}
+	h.all = append(h.all, a)
+	h.log = append(h.log, "X:"+curve.Params().Name)
+	err := h.guardedDispatch(a, fmt.Sprintf("dispatch #%d for a wallet with a %s key", a.id, curve.Params().Name))
+	if err == nil {
+		h.t.Fatalf("dispatch for a wallet whose key cannot be marshalled was accepted\nhistory: %s", h.history())
+	}
+	h.refused = append(h.refused, a)
+	h.check("after the dispatch for an unmarshalable wallet")
+}
+
 func (h *c25Harness) burst(wi, k int, typs []WalletActionType) {
 	actions := make([]*c25Action, k)
 	errs := make([]error, k)
@@ -220,7 +364,9 @@ func (h *c25Harness) burst(wi, k int, typs []WalletActionType) {
 		}(i)
 	}
 	close(start)
-	wg.Wait()
+	burstDone := make(chan struct{})
+	go func() { wg.Wait(); close(burstDone) }()
+	h.await(burstDone, fmt.Sprintf("burst of %d dispatches for wallet %d", k, wi))
 	var accepted []*c25Action
 	for i, err := range errs {
 		switch err {
@@ -263,7 +409,7 @@ func TestVerif_C25_OneActionPerWallet(t *testing.T) {
 		defer h.releaseAll()
 
 		steps := rapid.IntRange(1, 30).Draw(t, "steps")
-		burstOnBusy, crossWallet, reuse := false, false, false
+		burstOnBusy, crossWallet, reuse, afterBadKey := false, false, false, false
 		everDone := [c25Wallets]bool{}
 		for s := 0; s < steps; s++ {
 			var busyList []int
@@ -272,7 +418,7 @@ func TestVerif_C25_OneActionPerWallet(t *testing.T) {
 					busyList = append(busyList, wi)
 				}
 			}
-			op := rapid.SampledFrom([]string{"dispatch", "dispatch", "dispatch", "complete", "complete", "burst"}).Draw(t, "op")
+			op := rapid.SampledFrom([]string{"dispatch", "dispatch", "dispatch", "dispatch", "complete", "complete", "complete", "burst", "burst", "unmarshalable"}).Draw(t, "op")
 			if op == "complete" && len(busyList) == 0 {
 				op = "dispatch"
 			}
@@ -294,6 +440,10 @@ func TestVerif_C25_OneActionPerWallet(t *testing.T) {
 				wi := rapid.SampledFrom(busyList).Draw(t, "busyWallet")
 				h.complete(wi)
 				everDone[wi] = true
+			case "unmarshalable":
+				curve := rapid.SampledFrom([]elliptic.Curve{elliptic.P256(), elliptic.P224(), elliptic.P384()}).Draw(t, "curve")
+				h.unmarshalable(curve, rapid.Int64Range(1, 1<<30).Draw(t, "scalar"), rapid.SampledFrom(types).Draw(t, "type"))
+				afterBadKey = true
 			case "burst":
 				wi := rapid.IntRange(0, c25Wallets-1).Draw(t, "wallet")
 				k := rapid.IntRange(2, 6).Draw(t, "burst")
@@ -333,7 +483,7 @@ func TestVerif_C25_OneActionPerWallet(t *testing.T) {
 		for _, l := range h.log {
 			kinds["op:"+l[:1]] = true
 		}
-		labels := []string{fmt.Sprintf("burst-on-busy:%v", burstOnBusy), fmt.Sprintf("cross-wallet:%v", crossWallet), fmt.Sprintf("reuse-after-completion:%v", reuse)}
+		labels := []string{fmt.Sprintf("burst-on-busy:%v", burstOnBusy), fmt.Sprintf("cross-wallet:%v", crossWallet), fmt.Sprintf("reuse-after-completion:%v", reuse), fmt.Sprintf("bad-key-dispatch:%v", afterBadKey)}
 		for k := range kinds {
 			labels = append(labels, k)
 		}
